@@ -5,6 +5,7 @@ import CosetProofs.Ties.RecipientGuards
 import CosetProofs.Ties.Budget.Encrypt
 import CosetProofs.Ties.Compare.Encrypt
 import CosetProofs.Ties.Compare.Header
+import CosetProofs.Ties.IanaTables
 namespace Coset.Props.C05
 
 /-! ### ties to the source text (regenerated on every run, compared in the kernel with the transcribed tree) -/
@@ -27,5 +28,10 @@ theorem tie_compare_header : Coset.Ties.compareCovered "header" Coset.Gen.decisi
 
 #print axioms tie_compare_encrypt
 #print axioms tie_compare_header
+
+/-- the registry tables the streams of this property build values from (by name) are the IANA assignments. -/
+theorem tie_iana_tables : Coset.Ties.IanaTablesOk := Coset.Ties.iana_tables
+
+#print axioms tie_iana_tables
 
 end Coset.Props.C05
